@@ -29,6 +29,10 @@ CHECKS = {
          "generated-input search (enumerated lengths + seeded structured tapes) against an independent CRC-24/base64/line-structure oracle, metamorphic tolerance variants, accept-iff-match CRC decision",
          "exploration: every payload length 0..700 (thorough 0..4096, sampled to 1 MiB) x block type x header map x checksum x read schedule x consumer; writer output validated by an independent armor structure parser; reader compared with the original triple",
          "trusts the harness' own bitwise CRC-24, base64 codec and line parser; cannot show absence outside the explored lengths/headers"),
+ "C12": ("DESIGN.md §4 C12",
+         "bidirectional differential generated-input search against an independent composition of the RustCrypto primitives written from RFC 9580 (hand-written CFB, SEIPDv1/v2 framing, HKDF info strings, S2K, SKESK v4/v6, secret-key CFB/AEAD protection, RFC 3394 key wrap, ECDH KDF + padding, X25519/X448 HKDF), anchored at start-up to the RFC 9580 A.9-A.11 sample messages and the RFC 3394 vector",
+         "exploration: every coded S2K count 0..255 (with password lengths around salt+password = octet count) + random S2K points; SEIPDv1 x 11 ciphers (in-memory, streaming, message level); SEIPDv2 x 9 pairs x chunk sizes x 0..3 chunks; SKESK v4 (derived / encrypted session key) and v6; secret-key protection usage 254/253 for 7 zoo keys; PKESK v3/v6 for RSA, ECDH cv25519/P-256/P-384/P-521, X25519, X448 (rPGP -> reference for all, reference -> rPGP for cv25519, P-256, X25519)",
+         "the RustCrypto primitive crates are shared with rPGP and trusted; weak-hash / simple S2K that rPGP refuses by documented policy are not sent to it"),
  "C14": ("DESIGN.md §4 C14",
          "exhaustive small-scope enumeration (all strings over {CR,LF,x} up to length L x all chunkings) + seeded random long strings on buffer edges, differential against a 10-line reference canonicalizer and an independently computed SHA-256 signature digest",
          "exploration with an exhaustively enumerated scope: every string of length <=8 (thorough <=10) over the 3-class alphabet under every source/write chunking and three consumer patterns for NormalizedReader, NormalizingHasher (observed via recording signer) and normalize_lines (observed via the cleartext callback); long strings with patterns on 512/1024/8192 edges; builder and message-reader digests; signature invariance/non-invariance under all single-symbol edits; Utf8-mode CRLF check accept/reject under all chunkings",
